@@ -31,9 +31,29 @@ def select_for_replay(cands):
     return chosen, len(plain) - min(len(plain), MAX_REPLAYS_PER_CASE)
 
 
+class CaseTimeout(BaseException):
+    pass
+
+
+def lpsem_EnoughCandidates():
+    from .lpsem import EnoughCandidates
+    return EnoughCandidates
+
+
+def _alarm(signum, frame):
+    raise CaseTimeout()
+
+
 def _worker(args):
     prop, case_id, kwargs, tier, seed = args
     t0 = time.time()
+    import signal
+    budget = int(os.environ.get('VERIF_CASE_TIMEOUT', '1800' if tier == 'thorough' else '600'))
+    try:
+        signal.signal(signal.SIGALRM, _alarm)
+        signal.alarm(budget)
+    except (ValueError, AttributeError):
+        pass
     try:
         from . import lift
         lift.install()
@@ -42,8 +62,25 @@ def _worker(args):
             res = mod.run_case(case_id, tier=tier, seed=seed, **kwargs)
         res['wall_s'] = time.time() - t0
         res['kwargs'] = kwargs
+        signal.alarm(0)
         return res
+    except lpsem_EnoughCandidates() as e:
+        res = e.rec.result()
+        res['wall_s'] = time.time() - t0
+        res['kwargs'] = kwargs
+        try:
+            signal.alarm(0)
+        except Exception:  # noqa: BLE001
+            pass
+        return res
+    except CaseTimeout:
+        return dict(prop=prop, case=case_id, error='case exceeded its wall-clock budget of %d s (inconclusive, never a pass)' % budget, tb='',
+                    wall_s=time.time() - t0, kwargs=kwargs)
     except BaseException as e:  # noqa: BLE001 - report, never swallow
+        try:
+            signal.alarm(0)
+        except Exception:  # noqa: BLE001
+            pass
         return dict(prop=prop, case=case_id, error='%s: %s' % (type(e).__name__, e), tb=traceback.format_exc(),
                     wall_s=time.time() - t0, kwargs=kwargs)
 
